@@ -244,7 +244,13 @@ func (inv *Invoice) Invert() error {
 			row.Amount = row.Amount.Invert()
 		}
 	}
-	inv.Totals = nil
+	// An externally supplied rounding amount is inverted like every other
+	// amount; all other totals are calculated again.
+	if rnd := invertAmountPtr(inv.Totals.Rounding); rnd != nil {
+		inv.Totals = &Totals{Rounding: rnd}
+	} else {
+		inv.Totals = nil
+	}
 
 	if err := inv.Calculate(); err != nil {
 		return err
